@@ -489,15 +489,14 @@ fn run_span(c: &Case) -> Obs {
     };
     let obs = format!("{orig}|{eager}|{lazy}");
     // property: both views report the same span, equal to that of the written record; an END
-    // before POS is malformed input (both views overflow alike) and is only observed
-    let end_before_pos = orig.ends_with("Panic");
+    // before POS is an error (never a panic) in all three
     let verdict = if eager.starts_with('R') || lazy.starts_with('R') {
         Err(("span-record-unreadable".to_string(), format!("{line} -> {obs}")))
     } else if lazy != eager {
         Err((format!("span-lazy-ne-eager-v{ver}"), format!("{line} -> {obs}")))
     } else if eager != orig {
         Err((format!("span-changed-by-roundtrip-v{ver}"), format!("{line} -> {obs}")))
-    } else if orig.contains("Panic") && !end_before_pos {
+    } else if orig.contains("Panic") {
         Err(("span-panic".to_string(), format!("{line} -> {obs}")))
     } else {
         Ok(())
